@@ -93,6 +93,10 @@ def run(ctx):
     # strings made of escapes only (stress bit 32): step 64 walks the four escape patterns, v % 97 the run length
     for k in range(2 if ctx.quick() else 12):
         jobs.append([str(32 + r.randrange(11, 32) + 64 * k), "4" if ctx.quick() else "8", "64", str(r.randrange(16) | (r.choice([0, 2]) << 4)), "1"])
+    # long texts (stress mode 2): the end of the text at every offset around 1, 2 and 3 flush units of the FILE printer (16384 bytes), flags with and without indentation
+    for unit in range(3):
+        for fl in ((0, 32) if ctx.quick() else (0, 16, 32, 48, 5, 64 + 3)):
+            jobs.append([str(200 * unit), "200", "1", str(fl), "2"])
     with ThreadPoolExecutor(16) as ex:
         rs = list(ex.map(lambda j: sh([hj] + j, timeout=1500, env=ASAN_ENV), jobs))
     jfail, fixed_runs, variants = [], 0, 0
